@@ -136,6 +136,9 @@ def gen(seed, thorough=False):
 
 def directed(tier, base_seed):
     """Every hook site of small worlds as a crash point; every byte offset of the report."""
+    from .. import stubval
+    for spec in stubval.specs(gen, base_seed, 80 if tier == 'thorough' else 8):
+        yield spec
     nworlds = 6 if tier == 'thorough' else 2
     for wi in range(nworlds):
         seed = 700000 + base_seed * 100 + wi
@@ -168,6 +171,9 @@ def directed(tier, base_seed):
 
 
 def run(spec, ctx):
+    if spec.get('stubval'):
+        from .. import stubval
+        return stubval.run(spec, ctx, ID)
     src = W.materialise(spec['world'], ctx.scratch)
     m = W.Model(spec['world'])
     res = core.execute(spec, W.argv(spec['opt'], src))
